@@ -390,6 +390,10 @@ func limitExceeded(kind, args string) string {
 		return ""
 	}
 	switch kind {
+	case "TWCC":
+		if t, ok := getBody(NewR(args), "TWCC").(*rtcp.TransportLayerCC); ok && t.Header.Count > 31 {
+			return "header count above 31 (caller-supplied TWCC header)"
+		}
 	case "HDR":
 		if h := getHeader(r); h.Count > 31 {
 			return "header count above 31"
@@ -878,6 +882,9 @@ func rembOracle(base, kind, args, res string) string {
 		}
 		if int(b[16]) != len(v.SSRCs) || len(b) != 20+4*len(v.SSRCs) {
 			return "count octet differs from the number of SSRC entries"
+		}
+		if lf := int(b[2])<<8 | int(b[3]); lf != len(b)/4-1 {
+			return fmt.Sprintf("REMB with %d SSRC entries: the length field says %d words, the packet has %d", len(v.SSRCs), lf+1, len(b)/4)
 		}
 	}
 	return ""
